@@ -24,7 +24,8 @@ EXPLANATION = (
     "base_id read before any allocation, and finalisation reaches the type-level and property-level default checks; (D5) the "
     "functions that take a JSON default value apart by struct property look members up by the property's wire name: a "
     "StructProperty's `name` (the Rust identifier) is used there only inside formatting macros or as the value of the "
-    "`StructPropertyRename::None` arm of a match on that property's `rename`."
+    "`StructPropertyRename::None` arm of a match on that property's `rename`; (D6) the property classifier answers Required "
+    "only on a path where the `default` it was handed is known to be None."
 )
 ASSUMPTIONS = ["serde_json::Value::as_* / is_* semantics as documented", "the rendered literal's numeric value is not decided (see DESIGN.md)"]
 
@@ -279,6 +280,41 @@ def run(facts, rep, tier):
                        c.fns[classifier].get("sp"))
         rep.sample({"rule": "C06.D2", "panicking": panicking, "optional_cells": sorted(optional)[:12]})
 
+        # ------------------------------------------------------------ D6 a present default is never answered with Required
+        ch = c.hir[classifier]
+        from lib import scope_binding
+        dflt_ix = [i for i, t in enumerate(c.fns[classifier]["inputs"]) if "Option<&serde_json::Value>" in t.replace("std::option::", "")]
+        anc_of = {id(n): a for n, a in walk(ch["body"])}
+        n_req = 0
+        for n, anc in walk(ch["body"]):
+            if not (n.get("k") == "path" and n.get("res") == "ctor" and n.get("path", "").endswith("StructPropertyState::Required") and n.get("ty") is not None):
+                continue
+            n_req += 1
+            none_known = False
+            for i, a in enumerate(anc):
+                # an arm of a match over (.., <default param>, ..) whose pattern at that position is `None`
+                if a.get("k") is None and "pat" in a and i > 0 and anc[i - 1].get("k") == "match":
+                    m = anc[i - 1]
+                    es = m["scrut"]["es"] if m["scrut"].get("k") == "tup" else [m["scrut"]]
+                    ps = a["pat"]["pats"] if a["pat"].get("k") == "tuple" else [a["pat"]]
+                    for e, pt in zip(es, ps):
+                        e = strip_refs(e)
+                        if e.get("k") == "path" and e.get("res") == "local":
+                            b = scope_binding(ch, anc_of[id(e)], e["path"], e)
+                            if b and b[0] == "param" and b[1] in dflt_ix and pt.get("k") == "path" and pt["path"].endswith("::None"):
+                                none_known = True
+                if a.get("k") == "if" and contains_node(a["then"], n):
+                    cnd = a["cond"]
+                    if cnd.get("k") == "mcall" and cnd["name"] == "is_none":
+                        e = strip_refs(cnd["recv"])
+                        if e.get("k") == "path" and e.get("res") == "local":
+                            b = scope_binding(ch, anc_of[id(e)], e["path"], e)
+                            none_known = none_known or bool(b and b[0] == "param" and b[1] in dflt_ix)
+            rep.ob("C06.D6", "required-only-without-default#%d" % (n_req - 1), none_known,
+                   "Required is answered where the schema default is known to be absent" if none_known else
+                   "the classifier can answer Required without having established that no `default` is present: a schema default on that path is neither honoured nor validated (the property silently becomes mandatory/Option)", n.get("sp") or c.fns[classifier].get("sp"))
+        rep.floor("C06.D6", "Required answers in the property classifier", n_req, 1)
+
     # ------------------------------------------------------------ D3
     nassign = 0
     for h in c.user_fns():
@@ -311,7 +347,7 @@ def run(facts, rep, tier):
                 key = "%s#%d" % (h["fn"], sum(1 for o in rep.obligations if o["key"].startswith("C06.D3/no-none-overwrite:%s#" % h["fn"])))
                 rep.ob("C06.D3", "no-none-overwrite:" + key, guarded,
                        why if guarded else "`%s = %s` may overwrite the default the constructor attached with None when no metadata is returned (struct-level default lost on this ingestion route only)" % (src(l), src(n["r"])), n.get("sp"))
-    rep.floor("C06.D3", "assignments to a named entry's default outside constructors", nassign, 6)
+    rep.floor("C06.D3", "assignments to a named entry's default outside constructors", nassign, 3)  # one per named kind; today 2 routes x 3 kinds
 
     # ------------------------------------------------------------ D4
     nret = 0
